@@ -222,6 +222,7 @@ PROFILE = {
     'autopong': [True],
     'open_transports': ['polling', 'polling', 'polling', 'websocket'],
     'odd_upgrade_hdr_pct': 25,
+    'probe_spellings_pct': 15,
 }
 
 
